@@ -130,8 +130,8 @@ DropAll(ix, S) == IF S = {} THEN ix ELSE LET f == CHOOSE x \in S : TRUE IN DropA
 (* imports and pytest_plugins of the analysed files to a fixpoint and      *)
 (* analyses every imported module that is NOT in file_cache yet.           *)
 (***************************************************************************)
-RECURSIVE SetToSeqI(_)
-SetToSeqI(S) == IF S = {} THEN <<>> ELSE LET x == CHOOSE y \in S : TRUE IN <<x>> \o SetToSeqI(S \ {x})
+RECURSIVE SetToSeqIx(_)
+SetToSeqIx(S) == IF S = {} THEN <<>> ELSE LET x == CHOOSE y \in S : TRUE IN <<x>> \o SetToSeqIx(S \ {x})
 RECURSIVE AnalyzeDiskSeq(_, _, _)
 AnalyzeDiskSeq(ix, D, o) ==
     IF o = <<>> THEN ix ELSE AnalyzeDiskSeq(AnalyzeFnD(ix, D, Head(o), ix.disk[Head(o)], FALSE), D, Tail(o))
@@ -144,10 +144,10 @@ ScanImports(ix, D, todo, done) ==
     ELSE LET f == CHOOSE x \in todo : TRUE
              c == IF ix.cached[f] # NoMod THEN ix.cached[f] ELSE ix.disk[f]
              new == { g \in ModTargets(c) : g \notin done /\ g # f /\ ix.cached[g] = NoMod /\ ix.disk[g] # NoMod }
-         IN  ScanImports(AnalyzeDiskSeq(ix, D, SetToSeqI(new)), D, (todo \ {f}) \cup new, done \cup {f})
+         IN  ScanImports(AnalyzeDiskSeq(ix, D, SetToSeqIx(new)), D, (todo \ {f}) \cup new, done \cup {f})
 ScanFn(ix, D) ==
     LET p1 == { f \in Files : ix.disk[f] # NoMod /\ RoleOf[f] \in {"conftest", "test"} }
-        ix1 == AnalyzeDiskSeq(ix, D, SetToSeqI(p1))
+        ix1 == AnalyzeDiskSeq(ix, D, SetToSeqIx(p1))
     IN  ScanImports(ix1, D, { f \in Files : ix1.cached[f] # NoMod /\ RoleOf[f] \in {"conftest", "test"} }, {})
 
 (* get_file_content: cache, else disk *)
